@@ -92,6 +92,7 @@ def handleX (args : List String) (obs : String) : String :=
         let given : Option Response :=
           if resp == "-" then none
           else if resp.startsWith "t" then (resp.drop 1).toString.toNat?.map fun c => Response.text c (str "shown")
+          else if resp.startsWith "g" then (resp.drop 1).toString.toNat?.map Response.getBodyAndReprocess
           else resp.toNat?.map Response.new
         some (ofLogError (if ctor == "client" then some (given.getD (Response.new 400)) else given) none)
       | _ => none
@@ -106,7 +107,7 @@ def handleX (args : List String) (obs : String) : String :=
           let leaks := (List.range (body.length + 1)).any fun i => (str "ZQ").isPrefixOf (body.drop i)
           let fails := (if r.code == e.code then [] else ["wrong-status-class"]) ++
             (if leaks then ["error-text-in-response-body"] else []) ++
-            (if r.kind == .normal then [] else ["not-a-normal-response"])
+            (if r.kind == e.kind then [] else ["not-the-attached-response"])
           if fails.isEmpty then "ok" else "FAIL:" ++ ",".intercalate fails ++ ":"
         | none => if obs == "PANIC" then "FAIL:panic:" else "FAIL:unparsable-response:"
       model ++ "\t" ++ verdict
